@@ -186,6 +186,19 @@ static void run_cmd(const sim::Cmd &c, sim::Out &out)
       ended = true;
       break;
     }
+    {
+      Checker dk(*s, b.m, *l);
+      dk.check_domains_after_read(units_read);
+      for (auto &p : dk.cnt.c)
+        cnt.inc(p.first, p.second);
+      for (auto &v : dk.out)
+      {
+        log.ev("violation " + v.cls);
+        (enabled_for(prop, v) ? viols : others).push_back(v);
+      }
+      if (!viols.empty())
+        break;
+    }
     if (!b.unit_cut_mode[u] && u + 1 < b.units.size())
       continue;
     bool r = false;
